@@ -108,7 +108,10 @@ func (evt *catchEvent) NextAction(ctx context.Context, flow Flow) chan IAction {
 		go evt.run(ctx, sender)
 	})
 
-	response := make(chan IAction)
+	// buffered: the flow waiting here may be withdrawn (event-based gateway,
+	// interrupted activity) without the catch event knowing; answering it
+	// later must not block the event loop, or event delivery backs up
+	response := make(chan IAction, 1)
 	evt.mch <- nextActionMessage{response: response, flow: flow}
 	return response
 }
